@@ -2,6 +2,7 @@ use crate::common::Args;
 
 pub mod c01;
 pub mod c02;
+pub mod c02_l2;
 pub mod c03;
 pub mod c04;
 pub mod c04_l2;
